@@ -136,7 +136,10 @@ DirTargets(ds) ==
     <<FS("", "a", <<WithDirs(F("", "name"), ds), F("", "n")>>)>>,
     <<FS("", "items", <<WithDirs(FS("", "self", <<F("", "name")>>), ds), F("", "n")>>)>>,
     <<FS("", "a", <<WithDirs(Inl("A", <<F("", "n")>>), ds), F("", "name")>>)>>,
-    <<FS("", "a", <<WithDirs(Spr("G"), ds), F("", "name")>>)>> }
+    <<FS("", "a", <<WithDirs(Spr("G"), ds), F("", "name")>>)>>,
+    \* the meta field takes directives like any other selection
+    <<WithDirs(F("", "__typename"), ds), F("x", "title")>>,
+    <<FS("", "a", <<WithDirs(F("t", "__typename"), ds), F("", "name")>>)>> }
 DirFrags == <<Frg("Q", "Query", <<F("", "title"), FS("", "a", <<F("", "name")>>)>>), Frg("G", "A", <<F("", "n"), FS("", "self", <<F("x", "name")>>)>>)>>
 \* the same named fragment spread twice with independent directives (a decision must not be shared)
 DirSmall == { <<>>, <<Dir("skip", BoolV(TRUE))>>, <<Dir("skip", BoolV(FALSE))>>, <<Dir("include", BoolV(TRUE))>>,
@@ -148,6 +151,15 @@ DirTwice(d1, d2) ==
 FamDirs ==
   { Case("dirs", [ops |-> <<Op("D", "query", DirVarDefs, t)>>, frags |-> DirFrags], "D", DirGiven, {}) :
        t \in UNION { DirTargets(ds) : ds \in DirCombos } \cup UNION { DirTwice(d1, d2) : d1 \in DirSmall, d2 \in DirSmall } }
+
+\* one document, every assignment of its two condition variables (given, omitted with defaults, partly given): the cases of
+\* a document are also resolved one after the other on ONE parsed executable (a decision must not stick to the request)
+DirVarsDefs == <<VarDefD("s", B, BoolV(FALSE)), VarDefD("i", B, BoolV(TRUE))>>
+DirVarsGiven == {NoVars, [s |-> BoolV(TRUE)], [i |-> BoolV(FALSE)]} \cup {[s |-> BoolV(a), i |-> BoolV(b)] : a \in BOOLEAN, b \in BOOLEAN}
+DirBoth == <<Dir("skip", Var("s")), Dir("include", Var("i"))>>
+FamDirVars ==
+  { Case("dirvars", [ops |-> <<Op("D", "query", DirVarsDefs, t)>>, frags |-> DirFrags], "D", g, {}) :
+       t \in DirTargets(DirBoth) \cup DirTwice(<<Dir("skip", Var("s"))>>, <<Dir("include", Var("i"))>>), g \in DirVarsGiven }
 
 \* ---- one defect injected into a valid request (C10) ---------------------------------------
 BogusArg == Arg("bogus", IntV(1))
@@ -295,6 +307,6 @@ FamMixed ==
 Families ==
   [ flat |-> FamFlat, nest1 |-> FamNest1, nest2 |-> FamNest2, nest3 |-> FamNest3,
     inline1 |-> FamInline1, inline2 |-> FamInline2, spread |-> FamSpread, dups |-> FamDups,
-    args |-> FamArgs, ops |-> FamOps, dirs |-> FamDirs, defect |-> FamDefects,
+    args |-> FamArgs, ops |-> FamOps, dirs |-> FamDirs, dirvars |-> FamDirVars, defect |-> FamDefects,
     inputs |-> FamInputs, mixed |-> FamMixed, abstract |-> FamAbstract, defectabs |-> FamDefectsAbs, faultnth |-> FamFaultsNth, fault0 |-> FamFaults0, fault1 |-> FamFaults1, fault2 |-> FamFaults2 ]
 =============================================================================
